@@ -65,6 +65,8 @@ Inductive beh :=
                                sending, so a WriteMessage fails before any ReadMessage does *)
 | AcceptThenHang (k : nat)  (* upgrade, k messages each way, then the server goes silent: it keeps the
                                TCP connection but neither sends nor answers (not even a close frame) *)
+| AcceptThenStay (k : nat)  (* upgrade and stay healthy for as long as the client wants (answers everything,
+                               never drops); k messages pass before the client is told to stop *)
 | Hang.                     (* request read, never answered: the handshake times out *)
 
 (* what the access endpoint does with one POST (ReconnectAuth only) *)
@@ -97,7 +99,7 @@ Definition dial_returns_error (e : ender) : bool :=
 (* Dial: Some k = established and later ended (returns nil), None = error *)
 Definition ws_result (b : beh) : option nat :=
   match b with
-  | AcceptThenDrop k | AcceptThenHang k => Some k
+  | AcceptThenDrop k | AcceptThenHang k | AcceptThenStay k => Some k
   | AcceptThenDropW k => if dial_returns_error EWriter then None else Some k
   | _ => None
   end.
@@ -108,7 +110,7 @@ Definition to_writer (b : beh) : beh :=
 
 (* the server never ends the connection by itself: Dial sits in its writer loop until ctx.Done() *)
 Definition holds (b : beh) : bool :=
-  match b with AcceptThenHang _ => true | _ => false end.
+  match b with AcceptThenHang _ | AcceptThenStay _ => true | _ => false end.
 
 (* does the peer answer a close frame (gorilla's default close handler echoes it)? *)
 Definition peer_answers (b : beh) : bool :=
